@@ -221,12 +221,12 @@ Ltac ev1 :=
   match goal with
   | |- context [eval ?c ?e ?l ?w] =>
       let r := eval cbv [eval eval_list assign bindr fst snd alookup aset String.eqb Ascii.eqb Bool.eqb truthy bool_val negb andb orb
-       arith val_eq get_field set_field get_vec nth_error heap globs streams wtrace set_heap set_globs
-       list_set ity_signed Nat.eqb app List.length remove_nth alloc] in (eval c e l w) in change (eval c e l w) with r
+       arith val_eq get_field set_field get_vec heap globs streams wtrace set_heap set_globs
+       ity_signed Nat.eqb alloc] in (eval c e l w) in change (eval c e l w) with r
   | |- context [assign ?c ?lv ?v ?l ?w] =>
       let r := eval cbv [eval eval_list assign bindr fst snd alookup aset String.eqb Ascii.eqb Bool.eqb truthy bool_val negb andb orb
-       arith val_eq get_field set_field get_vec nth_error heap globs streams wtrace set_heap set_globs
-       list_set ity_signed Nat.eqb app List.length remove_nth alloc] in (assign c lv v l w) in change (assign c lv v l w) with r
+       arith val_eq get_field set_field get_vec heap globs streams wtrace set_heap set_globs
+       ity_signed Nat.eqb alloc] in (assign c lv v l w) in change (assign c lv v l w) with r
   end.
 
 (* a call whose arguments are values: of a function that is not translated -> its meaning in
@@ -238,8 +238,8 @@ Ltac callstep prg :=
       lazymatch o with
       | None =>
           let b := eval cbv [builtin external pop_stream bindr fst snd alookup aset String.eqb Ascii.eqb Bool.eqb
-                             get_vec nth_error heap globs streams wtrace set_heap list_set Nat.eqb app
-                             remove_nth alloc] in (builtin f args w) in
+                             get_vec heap globs streams wtrace set_heap Nat.eqb
+                             alloc] in (builtin f args w) in
           change (mk_call p r f args w) with b
       end
   end.
@@ -259,6 +259,11 @@ Ltac exhead :=
       | SReturn (Some _) => rewrite (exec_return p n)
       end
   end.
-Ltac ctidy := cbn [bindr fst snd truthy bool_val negb andb orb]; zground; cbn [bindr fst snd truthy bool_val negb andb orb].
-Ltac sstep prg := first [ callstep prg | ev1 | exhead ]; ctidy.
+Lemma truthy_if (c : bool) : negb ((if c then 1 else 0) =? 0) = c.
+Proof. destruct c; reflexivity. Qed.
+Ltac ctidy := cbn [bindr fst snd truthy bool_val negb andb orb app List.length nth_error list_set]; zground;
+              cbn [bindr fst snd truthy bool_val negb andb orb]; rewrite ?truthy_if.
+(* a condition on symbolic data is waiting: the proof has to decide it before the run goes on *)
+Ltac has_if := match goal with |- ?L = _ => match L with context [if ?c then _ else _] => lazymatch c with truthy _ => fail | _ => idtac end end end.
+Ltac sstep prg := tryif has_if then fail else (first [ callstep prg | ev1 | exhead ]; ctidy).
 Ltac srun prg := ctidy; repeat (sstep prg).
